@@ -4,8 +4,11 @@
 mod common;
 mod crash;
 mod fault;
+mod filterfmt;
 mod hist;
+mod logfmt;
 mod simfs;
+mod tablefmt;
 mod trace;
 mod universe;
 
@@ -20,6 +23,10 @@ use std::time::Duration;
 use common::*;
 use trace::TraceSink;
 use universe::Universe;
+
+pub fn arg_of<T: std::str::FromStr>(m: &HashMap<String, String>, k: &str, d: T) -> T {
+    m.get(k).and_then(|v| v.parse().ok()).unwrap_or(d)
+}
 
 fn parse_args() -> (String, HashMap<String, String>) {
     let mut args = std::env::args().skip(1);
@@ -370,6 +377,9 @@ fn main() {
         "hist" => cmd_hist(&m),
         "crash" => cmd_crash(&m),
         "fault" => cmd_fault(&m),
+        "logfmt" => logfmt::cmd(&m),
+        "tablefmt" => tablefmt::cmd(&m),
+        "filterfmt" => filterfmt::cmd(&m),
         _ => {
             eprintln!("usage: rainverif <hist> [--seed N --runs N --out DIR ...]");
             2
